@@ -69,6 +69,7 @@ def analyse(tm):
                     except RangeProblem as e:
                         r.err = str(e)
                         r.range_problem = e
+                        r.sim = e.sim
                     except isa.Undecodable as e:
                         r.err = str(e)
                     recs.append(r)
